@@ -92,13 +92,27 @@ def coq_build(clean=False, dev_targets=None):
         return out
 
 
+def property_modules(pid):
+    """Properties/<ID>.v plus the history-level statement files Properties/<ID>Hist*.v and the files a
+    property's configuration names (extra_props) -- all must be listed in _CoqProject"""
+    import glob
+    pdir = os.path.join(COQ, "theories", "Properties")
+    mods = [pid] + sorted(os.path.basename(f)[:-2] for f in glob.glob(os.path.join(pdir, pid + "Hist*.v")))
+    mods += [m for m in props.PROPS.get(pid, {}).get("extra_props", []) if m not in mods]
+    proj = open(os.path.join(COQ, "_CoqProject")).read()
+    return [m for m in mods if ("theories/Properties/%s.v" % m) in proj]
+
+
 def theorem_names(pid):
-    path = os.path.join(COQ, "theories", "Properties", pid + ".v")
-    src = open(path).read()
-    bad = re.findall(r"\b(Admitted|admit|Axiom|Parameter|Conjecture|Hypothesis|Variable)\b", src)
-    if bad:
-        raise Broken("forbidden declaration in Properties/%s.v" % pid, str(bad))
-    return re.findall(r"^Theorem\s+(\w+)", src, re.M)
+    names = []
+    for mod in property_modules(pid):
+        path = os.path.join(COQ, "theories", "Properties", mod + ".v")
+        src = open(path).read()
+        bad = re.findall(r"\b(Admitted|admit|Axiom|Parameter|Conjecture|Hypothesis|Variable)\b", src)
+        if bad:
+            raise Broken("forbidden declaration in Properties/%s.v" % mod, str(bad))
+        names += re.findall(r"^Theorem\s+(\w+)", src, re.M)
+    return names
 
 
 def scan_forbidden():
@@ -111,7 +125,7 @@ def assumptions(pid, wdir):
     names = theorem_names(pid)
     if not names:
         raise Broken("no theorems in Properties/%s.v" % pid, "")
-    src = "From Tibc Require Import Properties.%s.\n" % pid
+    src = "".join("From Tibc Require Import Properties.%s.\n" % m for m in property_modules(pid))
     src += "".join("Print Assumptions %s.\n" % n for n in names)
     f = os.path.join(wdir, "assum_%s.v" % pid)
     open(f, "w").write(src)
@@ -295,7 +309,7 @@ def main(argv):
     coqchk = None
     try:
         if os.environ.get("VERIF_REPO"):
-            coq_build(dev_targets=["theories/Properties/%s.vo" % pid] + ["theories/Harness/%s.vo" % h for h in cfg.get("harness_vo", [pid, "Net", "AppNet", "C12"])
+            coq_build(dev_targets=["theories/Properties/%s.vo" % m for m in property_modules(pid)] + ["theories/Harness/%s.vo" % h for h in cfg.get("harness_vo", [pid, "Net", "AppNet", "C12"])
                                                                                  if os.path.exists(os.path.join(COQ, "theories", "Harness", h + ".v"))])
         else:
             coq_build(clean=(tier == "thorough" and os.environ.get("VERIF_NO_CLEAN") != "1"))
